@@ -29,3 +29,9 @@ claim("C14",
       "The chunking code is decided structurally for all payload lengths and chunk sizes at once: every success exit of Send is dominated by the hand-off of a packet whose FinalChunk flag is known to be set; each chunk is data[off:hi] with off the running offset advancing by exactly the chunk length, hi-off <= maxChunkSize and the final flag set exactly when the remainder fits; Recv's accumulator is connection state (written back before every wait, reset only on the final chunk, single writer), a message is reported only under the FinalChunk fact of the packet just received, payloads are appended whole, and ping packets are never handed to Recv. These are necessary conditions for 'one Send = one identical Recv'; the remaining, genuine gap (Send erroring after a non-final chunk) is reported as a known finding.",
       "Not decided: delivery/ordering of the packets themselves (C01) and behaviour under transport faults. Known finding: Send timeout inside a chunked message (needs a protocol change).",
       "DESIGN.md §4 C14")
+
+claim("C20",
+      "dominance rules (effects guarded by the static-mode test, by the resent flag), interval analysis of the stored timeout, who-may-write/who-may-call tables",
+      "The timeout manager is decided by structural rules that hold for every event history: all state changes of Sent/Received are dominated by the !useStaticTimeout leg (a static timeout is inert); every value stored to resendTimeout or handed to the booster reset is proved >= the one-second floor by interval analysis; samples are inserted only under !resent and invalidated under resent, and Received recomputes only from a present, consumed sample; Boost increments once, only past the rate-limit test, on a booster built with the limit on; every recomputation resets the boost with the stored value. Each clause of the property maps to one of these rules; histories and inter-event times need not be enumerated because the rules are path-insensitive facts of the code.",
+      "Not decided: float32 rounding in the boost product (timeout = original + float32 product), and whether a late duplicate ACK is matched to the right sample (needs reasoning about sequence-number reuse).",
+      "DESIGN.md §4 C20")
